@@ -239,6 +239,14 @@ def run_case(case, ctx):
         pkgio.write_data_file(data, [pkgio.source_line(p['src']['name'], p['src']['x'], p['src']['y'], p['src']['flags'],
                                                        p['src']['flux'], p['src']['err']) for p in plants])
         out = os.path.join(d, 'out.fitinfo')
+        fargs = [f['name'] if f.get('mono') is None else f['central'] * u.micron for f in filters]
+        early = None
+        if fmt == 'v2' and len(plants) % 2 == 1:
+            # a Fitter made BEFORE fit() runs (filters listed in reverse order) and used after it: the two do not share state
+            from sedfitter import Fitter
+            with must_succeed('Fitter() before fit()'), quiet():
+                early = Fitter(fargs[::-1], (np.array(case['theta']) * u.arcsec)[::-1], mdir,
+                               extinction_law=gen.law_object(case['law']), av_range=[lo, hi], distance_range=dr)
         with must_succeed('fit()'), quiet():
             fit(data, [f['name'] if f.get('mono') is None else f['central'] * u.micron for f in filters],
                 np.array(case['theta']) * u.arcsec, mdir, out, n_data_min=1,
@@ -246,6 +254,18 @@ def run_case(case, ctx):
                 output_format=tuple(case['selector']), output_convolved=False)
         with must_succeed('reading the fit output'):
             recs, _ = fg.read_fit_file(out)
+        if early is not None:
+            p0 = plants[0]
+            rsrc = dict(p0['src'], flags=p0['src']['flags'][::-1], flux=p0['src']['flux'][::-1], err=p0['src']['err'][::-1])
+            with must_succeed('Fitter.fit on the fitter made before fit()'), quiet():
+                ie = early.fit(gen.source_object(rsrc))
+            if str(ie.model_name[0]).strip() != names[p0['m0']] or not float(ie.chi2[0]) <= 1e-6 + 2 * p0['slack0'] or \
+                    abs(float(ie.av[0]) - p0['av0']) > p0['av_tol'] or abs(float(ie.sc[0]) - p0['sc0']) > p0['sc_tol']:
+                fail('%s: a Fitter created before fit() ran on the same package (filters in reverse order) now puts %s first with '
+                     'chi2=%r, A_V=%r, scale=%r' % (p0['what'], str(ie.model_name[0]).strip(), float(ie.chi2[0]), float(ie.av[0]),
+                                                     float(ie.sc[0])), 'c08:other_fitter_disturbed')
+            labels.add('fitter_made_before_fit_used_after')
+            del early
         if len(recs) != len(plants):
             fail('%d records for %d sources' % (len(recs), len(plants)), 'c08:record_count')
         listing = os.path.join(d, 'pars.txt')
